@@ -581,6 +581,30 @@ class Summariser:
             if isinstance(st, ast.If):
                 cond = self.expr(st.test, events)
                 env0, f0 = dict(self.env), dict(self.fields)
+                if rest and _partial_exit(st):
+                    # some (not all) paths of the arms leave the function: duplicate the continuation
+                    # into both arms so that it is analysed under each arm's branch facts
+                    self.facts.append(cond)
+                    ev_t, term_t, ret_t = self.block(list(st.body) + list(rest))
+                    self.facts.pop()
+                    env_t, f_t = self.env, self.fields
+                    self.env, self.fields = dict(env0), dict(f0)
+                    self.facts.append(negate(cond))
+                    ev_e, term_e, ret_e = self.block(list(st.orelse) + list(rest))
+                    self.facts.pop()
+                    env_e, f_e = self.env, self.fields
+                    events.append(If(cond, ev_t, ev_e, st.lineno))
+                    if term_t and term_e:
+                        return events, True, _gate_ret(cond, ret_t, ret_e)
+                    if term_t:
+                        self.env, self.fields = env_e, f_e
+                        return events, False, ret_t
+                    if term_e:
+                        self.env, self.fields = env_t, f_t
+                        return events, False, ret_e
+                    self.env = self.merge(cond, env_t, env_e)
+                    self.fields = self.merge(cond, f_t, f_e, field=True)
+                    return events, False, None
                 self.facts.append(cond)
                 ev_t, term_t, ret_t = self.block(st.body)
                 self.facts.pop()
@@ -1182,6 +1206,36 @@ class Summariser:
         if isinstance(e, ast.UnaryOp) and isinstance(e.op, ast.USub) and isinstance(e.operand, ast.Constant):
             return ("const", -e.operand.value)
         return ("default", ast.unparse(e))
+
+
+def _arm_exits(stmts):
+    """(some path leaves the function, every path leaves the function) for a statement list."""
+    some = False
+    for st in stmts:
+        if isinstance(st, (ast.Return, ast.Raise)):
+            return True, True
+        if isinstance(st, ast.If):
+            s1, a1 = _arm_exits(st.body)
+            s2, a2 = _arm_exits(st.orelse)
+            some = some or s1 or s2
+            if a1 and a2:
+                return True, True
+        elif isinstance(st, (ast.With,)):
+            s1, a1 = _arm_exits(st.body)
+            some = some or s1
+            if a1:
+                return True, True
+        elif isinstance(st, ast.Try):
+            s1, _ = _arm_exits(st.body)
+            some = some or s1 or any(_arm_exits(h.body)[0] for h in st.handlers)
+    return some, False
+
+
+def _partial_exit(st):
+    """An `if` some of whose paths (but not a whole arm) leave the function."""
+    s1, a1 = _arm_exits(st.body)
+    s2, a2 = _arm_exits(st.orelse)
+    return (s1 and not a1) or (s2 and not a2)
 
 
 def _gate_ret(cond, a, b):
